@@ -6,7 +6,6 @@ package main
 import (
 	"errors"
 	"fmt"
-	"sort"
 	"strings"
 
 	"github.com/zclconf/go-cty/cty"
@@ -693,72 +692,180 @@ var c04StdFns = []c04StdFn{
 	{"range", stdlib.RangeFunc, func(c *Ctx) []cty.Value { return []cty.Value{c04StdNum(c), c04StdNum(c)} }},
 }
 
-// c04Stdlib: search only.  Non-interference and "no invention" are judged for
-// every function; "no loss" for every argument whose parameter lacks AllowMarked
-// (the protocol's promise) — for AllowMarked parameters the function's own code
-// decides, and a lost mark there is reported under its own site.
+// c04StdArg: an argument of (roughly) the parameter's type, from small pools.
+func c04StdArg(ctx *Ctx, ty cty.Type, depth int) cty.Value {
+	r := ctx.R
+	if ty != cty.DynamicPseudoType && r.Intn(12) == 0 {
+		return cty.UnknownVal(ty)
+	}
+	if r.Intn(25) == 0 {
+		return cty.NullVal(ty)
+	}
+	switch {
+	case ty == cty.DynamicPseudoType:
+		ts := []cty.Type{cty.String, cty.Number, cty.Bool, cty.List(cty.String), cty.Map(cty.String), cty.Set(cty.String), cty.List(cty.Number),
+			cty.Tuple([]cty.Type{cty.String, cty.Number}), cty.Object(map[string]cty.Type{"a": cty.String, "b": cty.Number})}
+		if depth <= 0 {
+			ts = ts[:3]
+		}
+		if r.Intn(15) == 0 {
+			return cty.DynamicVal
+		}
+		return c04StdArg(ctx, ts[r.Intn(len(ts))], depth)
+	case ty == cty.String:
+		return cty.StringVal([]string{"a", "b", "hello world", "", "%s", "%d-%s", "1", "true", "[a-z]+", "2006-01-02T15:04:05Z", "a,b\n1,2", "{\"k\":1}", "YYYY", "1h"}[r.Intn(14)])
+	case ty == cty.Number:
+		if r.Intn(8) == 0 {
+			return cty.NumberFloatVal(0.5)
+		}
+		return cty.NumberIntVal(int64(r.Intn(5) - 1))
+	case ty == cty.Bool:
+		return cty.BoolVal(r.Intn(2) == 0)
+	case ty.IsListType() || ty.IsSetType():
+		n := r.Intn(3)
+		ety := ty.ElementType()
+		if n == 0 && ety != cty.DynamicPseudoType {
+			if ty.IsListType() {
+				return cty.ListValEmpty(ety)
+			}
+			return cty.SetValEmpty(ety)
+		}
+		if n == 0 {
+			n = 1
+		}
+		if ety == cty.DynamicPseudoType {
+			ety = []cty.Type{cty.String, cty.Number, cty.List(cty.String)}[r.Intn(3)]
+		}
+		vs := make([]cty.Value, n)
+		for i := range vs {
+			vs[i] = c04StdArg(ctx, ety, depth-1)
+			if vs[i].Type() != ety { // an unknown/null of the right type keeps the collection homogeneous
+				vs[i] = cty.UnknownVal(ety)
+			}
+		}
+		if ty.IsListType() {
+			return cty.ListVal(vs)
+		}
+		return cty.SetVal(vs)
+	case ty.IsMapType():
+		ety := ty.ElementType()
+		if ety == cty.DynamicPseudoType {
+			ety = []cty.Type{cty.String, cty.Number}[r.Intn(2)]
+		}
+		m := map[string]cty.Value{}
+		for _, k := range []string{"a", "b"}[:1+r.Intn(2)] {
+			v := c04StdArg(ctx, ety, depth-1)
+			if v.Type() != ety {
+				v = cty.UnknownVal(ety)
+			}
+			m[k] = v
+		}
+		return cty.MapVal(m)
+	}
+	return genVal(r, ty, 2, ValOpts{Unknown: true, Null: true, Small: true})
+}
+
+// c04StdCase: one paired run of a stdlib function.  Non-interference and "no
+// invention" are judged for every function; "no loss" for every argument whose
+// parameter lacks AllowMarked (the protocol's promise) — for AllowMarked
+// parameters the function's own code decides, and a top-level mark that does
+// not reach a wholly known result is only tallied.
+func c04StdCase(ctx *Ctx, name string, f function.Function, base []cty.Value) {
+	params, vp := f.Params(), f.VarParam()
+	args := make([]cty.Value, len(base))
+	for j, a := range base {
+		args[j] = c04RandomMarks(ctx, a)
+	}
+	marks := c04DeepSet(args...)
+	key := "stdlib " + name + " " + c04Vals(args)
+	ctx.Eval(key, len(marks) > 0)
+	ctx.Tag("stdlib")
+	lit := "stdlib " + name + " " + c04GoLit(args, "")
+	fail := func(site, sig, what, outcome string) {
+		ctx.Fail(Failure{Site: site, Sig: sig, What: what, Input: key, GoLit: lit, Outcome: outcome})
+	}
+	clean := make([]cty.Value, len(args))
+	for j, a := range args {
+		clean[j], _ = a.UnmarkDeep()
+	}
+	var rm, rc cty.Value
+	var em, ec error
+	pm, _ := try(func() { rm, em = f.Call(args) })
+	pc, _ := try(func() { rc, ec = f.Call(clean) })
+	outM, outC := c04ConvOut(rm, em, pm), c04ConvOut(rc, ec, pc)
+	kind := func(s string) string { return strings.SplitN(s, " ", 2)[0] }
+	if kind(outM) != kind(outC) {
+		fail("stdlib-non-interference", name+":outcome", name+": the marked and the unmarked call end differently", "marked: "+outM+" ; unmarked: "+outC)
+		return
+	}
+	if kind(outM) != "ok" {
+		return
+	}
+	ctx.Tag("stdlib-ok")
+	same := false
+	try(func() {
+		s, _ := rm.UnmarkDeep()
+		same = s.RawEquals(rc)
+	})
+	if !same {
+		fail("stdlib-non-interference", name+":result", name+": result on marked arguments, unmarked, is not the result on unmarked arguments", "marked: "+outM+" ; unmarked: "+outC)
+	}
+	resMarks := c04DeepSet(rm)
+	top := c04TopSet(rm)
+	for j, a := range args {
+		var p *function.Parameter
+		if j < len(params) {
+			p = &params[j]
+		} else {
+			p = vp
+		}
+		deep := c04Keys(c04DeepSet(a))
+		if p != nil && !p.AllowMarked {
+			if m, ok := c04Subset(deep, top); !ok {
+				fail("stdlib-no-loss", name, fmt.Sprintf("%s: mark %q inside argument %d (parameter without AllowMarked) is not on the result", name, m, j), outM)
+			}
+		} else if _, ok := c04Subset(c04MarkSet(a.Marks()), resMarks); !ok && rm.IsWhollyKnown() {
+			ctx.Tag("allowmarked-top-mark-not-in-result:" + name)
+		}
+	}
+	if m, ok := c04Subset(c04Keys(resMarks), marks); !ok {
+		fail("stdlib-no-invention", name, fmt.Sprintf("%s: the result carries mark %q that no argument carries", name, m), outM)
+	}
+}
+
+// c04Stdlib: search only — a hand-written table of well-typed calls that reach
+// the implementations, then every exported function of the package (the
+// extractor's list) on arguments drawn from its own parameter types.
 func c04Stdlib(ctx *Ctx) {
 	n := ctx.N(60, 3000)
 	for _, fn := range c04StdFns {
-		params, vp := fn.f.Params(), fn.f.VarParam()
 		for i := 0; i < n; i++ {
-			base := fn.args(ctx)
-			args := make([]cty.Value, len(base))
-			for j, a := range base {
-				args[j] = c04RandomMarks(ctx, a)
-			}
-			marks := c04DeepSet(args...)
-			key := "stdlib " + fn.name + " " + c04Vals(args)
-			ctx.Eval(key, len(marks) > 0)
-			ctx.Tag("stdlib:" + fn.name)
-			lit := "stdlib " + fn.name + " " + c04GoLit(args, "")
-			fail := func(site, sig, what, outcome string) {
-				ctx.Fail(Failure{Site: site, Sig: sig, What: what, Input: key, GoLit: lit, Outcome: outcome})
-			}
-			var rm, rc cty.Value
-			var em, ec error
-			pm, _ := try(func() { rm, em = fn.f.Call(args) })
-			pc, _ := try(func() { rc, ec = fn.f.Call(base) })
-			outM, outC := c04ConvOut(rm, em, pm), c04ConvOut(rc, ec, pc)
-			kind := func(s string) string { return strings.SplitN(s, " ", 2)[0] }
-			if kind(outM) != kind(outC) {
-				fail("stdlib-non-interference", fn.name+":outcome", fn.name+": the marked and the unmarked call end differently", "marked: "+outM+" ; unmarked: "+outC)
+			var base []cty.Value
+			if p, _ := try(func() { base = fn.args(ctx) }); p {
 				continue
 			}
-			if kind(outM) != "ok" {
-				continue
-			}
-			same := false
-			try(func() {
-				s, _ := rm.UnmarkDeep()
-				same = s.RawEquals(rc)
-			})
-			if !same {
-				fail("stdlib-non-interference", fn.name+":result", fn.name+": result on marked arguments, unmarked, is not the result on unmarked arguments", "marked: "+outM+" ; unmarked: "+outC)
-			}
-			resMarks := c04DeepSet(rm)
-			top := c04TopSet(rm)
-			for j, a := range args {
-				var p *function.Parameter
-				if j < len(params) {
-					p = &params[j]
-				} else {
-					p = vp
-				}
-				deep := c04Keys(c04DeepSet(a))
-				if p != nil && !p.AllowMarked {
-					if m, ok := c04Subset(deep, top); !ok {
-						fail("stdlib-no-loss", fn.name, fmt.Sprintf("%s: mark %q inside argument %d (parameter without AllowMarked) is not on the result", fn.name, m, j), outM)
-					}
-				} else if m, ok := c04Subset(c04MarkSet(a.Marks()), resMarks); !ok && rm.IsWhollyKnown() {
-					ctx.Tag("allowmarked-top-mark-not-in-result:" + fn.name)
-					_ = m
-				}
-			}
-			if m, ok := c04Subset(c04Keys(resMarks), marks); !ok {
-				fail("stdlib-no-invention", fn.name, fmt.Sprintf("%s: the result carries mark %q that no argument carries", fn.name, m), outM)
-			}
+			c04StdCase(ctx, fn.name, fn.f, base)
 		}
 	}
-	_ = sort.Strings
+	n = ctx.N(40, 2500)
+	for _, fn := range stdlibFuncs {
+		params, vp := fn.F.Params(), fn.F.VarParam()
+		for i := 0; i < n; i++ {
+			var base []cty.Value
+			p, _ := try(func() {
+				for _, prm := range params {
+					base = append(base, c04StdArg(ctx, prm.Type, 2))
+				}
+				if vp != nil {
+					for k := ctx.R.Intn(3); k > 0; k-- {
+						base = append(base, c04StdArg(ctx, vp.Type, 2))
+					}
+				}
+			})
+			if p {
+				continue
+			}
+			c04StdCase(ctx, fn.Var, fn.F, base)
+		}
+	}
 }
